@@ -92,12 +92,12 @@ def Table.set (t : Table) (phase n : Name) (k : Kind) : Table :=
       | .error _ => t
       | .ok k' => if old = k' then t else { entries := updateE t.entries key k', changed := true }
 
-/-! ## expression rules (`KindInferenceMapper`, always run with `check = False`
-    because `make_kim` ignores its `check` argument) -/
+/-! ## expression rules (`KindInferenceMapper`); `chk` is its `check` flag: `false` in the
+    work-list loop, `true` in the final consistency pass -/
 
-/-- result kinds of a registered function for positional and keyword argument kinds;
+/-- result kinds of a registered function for the `check` flag, positional and keyword argument kinds;
     `.error` = any exception from `get_result_kinds`; `none` = function not registered -/
-abbrev Registry := Name → Option (List (Option Kind) → List (Name × Option Kind) → Except KErr (List Kind))
+abbrev Registry := Name → Option (Bool → List (Option Kind) → List (Name × Option Kind) → Except KErr (List Kind))
 
 /-- variable lookup of the mapper: global table first, then the phase's table -/
 def lookupVar (t : Table) (phase n : Name) : Option Kind :=
@@ -111,106 +111,118 @@ def isRealValued : Kind → Except KErr Bool
   | _ => .error .attributeError
 
 mutual
-def infer (reg : Registry) (t : Table) (phase : Name) : Expr → Except KErr Kind
+def infer (chk : Bool) (reg : Registry) (t : Table) (phase : Name) : Expr → Except KErr Kind
   | .const (.cplx _) => .ok (.scalar false)
+  | .const (.bool _) => .ok .boolean
   | .const _ => .ok (.scalar true)
   | .var n => match lookupVar t phase n with
       | some k => .ok k
       | none => .error .unable
-  | .sum cs => match inferSum reg t phase cs none with
+  | .sum cs => match inferSum chk reg t phase cs none with
       | .error e => .error e
       | .ok none => .error .unable
       | .ok (some k) => .ok k
-  | .prod cs => match inferProd reg t phase cs none with
+  | .prod cs => match inferProd chk reg t phase cs none with
       | .error e => .error e
       | .ok none => .error .noneKind
       | .ok (some k) => .ok k
   | .quot a b => do
-      let ka ← infer reg t phase a
-      let kb ← infer reg t phase b
+      let ka ← infer chk reg t phase a
+      let kb ← infer chk reg t phase b
       unifyK ka kb
   | .pow a b => do
-      let ka ← infer reg t phase a
-      let kb ← infer reg t phase b
+      -- check mode looks at the exponent first: it must be a Scalar or an Integer
+      if chk then
+        match ← infer chk reg t phase b with
+        | .scalar _ => pure ()
+        | .integer => pure ()
+        | _ => throw .typeError
+      let ka ← infer chk reg t phase a
+      let kb ← infer chk reg t phase b
       unifyK ka kb
   | .call f args kw =>
       match reg f with
       | none => .error .functionNotFound
       | some fn => do
-        let ak ← inferArgs reg t phase args
-        let kk ← inferKw reg t phase kw
-        match fn ak kk with
+        let ak ← inferArgs chk reg t phase args
+        let kk ← inferKw chk reg t phase kw
+        match fn chk ak kk with
         | .error _ => .error .unable
         | .ok [k] => .ok k
         | .ok _ => .error .runtimeError
   | .sub a _ => do
-      let ka ← infer reg t phase a
+      let ka ← infer chk reg t phase a
+      if chk then
+        match ka with
+        | .array _ => pure ()
+        | _ => throw .valueError
       let r ← isRealValued ka
       .ok (.scalar r)
   | .cmp _ _ _ => .ok .boolean
   | .lnot a => do
-      let _ ← infer reg t phase a
+      let ka ← infer chk reg t phase a
+      if chk && ka != .boolean then throw .valueError
       .ok .boolean
   | .land cs => do
-      inferAllOk reg t phase cs
+      inferAllOk chk reg t phase cs
       .ok .boolean
   | .lor cs => do
-      inferAllOk reg t phase cs
+      inferAllOk chk reg t phase cs
       .ok .boolean
   | .ite _ _ _ => .error .unsupported
   | .attr _ _ => .error .unsupported
   | .min _ => .ok (.scalar true)
   | .max _ => .ok (.scalar true)
-/-- `map_sum`: children that cannot be inferred are skipped -/
-def inferSum (reg : Registry) (t : Table) (phase : Name) : List Expr → Option Kind → Except KErr (Option Kind)
+/-- `map_sum`: children that cannot be inferred are skipped, except in check mode -/
+def inferSum (chk : Bool) (reg : Registry) (t : Table) (phase : Name) : List Expr → Option Kind → Except KErr (Option Kind)
   | [], acc => .ok acc
   | c :: cs, acc =>
-    match infer reg t phase c with
-    | .error .unable => inferSum reg t phase cs acc
+    match infer chk reg t phase c with
+    | .error .unable => bif chk then .error .unable else inferSum chk reg t phase cs acc
     | .error e => .error e
     | .ok k => match unify acc (some k) with
       | .error e => .error e
-      | .ok acc' => inferSum reg t phase cs acc'
+      | .ok acc' => inferSum chk reg t phase cs acc'
 /-- `map_product_like` -/
-def inferProd (reg : Registry) (t : Table) (phase : Name) : List Expr → Option Kind → Except KErr (Option Kind)
+def inferProd (chk : Bool) (reg : Registry) (t : Table) (phase : Name) : List Expr → Option Kind → Except KErr (Option Kind)
   | [], acc => .ok acc
   | c :: cs, acc =>
-    match infer reg t phase c with
+    match infer chk reg t phase c with
     | .error e => .error e
     | .ok k => match unify acc (some k) with
       | .error e => .error e
-      | .ok acc' => inferProd reg t phase cs acc'
-def inferAllOk (reg : Registry) (t : Table) (phase : Name) : List Expr → Except KErr Unit
+      | .ok acc' => inferProd chk reg t phase cs acc'
+def inferAllOk (chk : Bool) (reg : Registry) (t : Table) (phase : Name) : List Expr → Except KErr Unit
   | [] => .ok ()
-  | c :: cs => match infer reg t phase c with
+  | c :: cs => match infer chk reg t phase c with
     | .error e => .error e
-    | .ok _ => inferAllOk reg t phase cs
+    | .ok k => if chk && k != .boolean then .error .valueError else inferAllOk chk reg t phase cs
 /-- argument kinds: `UnableToInferKind` becomes `None` -/
-def inferArgs (reg : Registry) (t : Table) (phase : Name) : List Expr → Except KErr (List (Option Kind))
+def inferArgs (chk : Bool) (reg : Registry) (t : Table) (phase : Name) : List Expr → Except KErr (List (Option Kind))
   | [] => .ok []
   | c :: cs =>
-    match infer reg t phase c with
-    | .error .unable => do let r ← inferArgs reg t phase cs; .ok (none :: r)
+    match infer chk reg t phase c with
+    | .error .unable => do let r ← inferArgs chk reg t phase cs; .ok (none :: r)
     | .error e => .error e
-    | .ok k => do let r ← inferArgs reg t phase cs; .ok (some k :: r)
-def inferKw (reg : Registry) (t : Table) (phase : Name) : List (Name × Expr) → Except KErr (List (Name × Option Kind))
+    | .ok k => do let r ← inferArgs chk reg t phase cs; .ok (some k :: r)
+def inferKw (chk : Bool) (reg : Registry) (t : Table) (phase : Name) : List (Name × Expr) → Except KErr (List (Name × Option Kind))
   | [] => .ok []
   | (n, c) :: cs =>
-    match infer reg t phase c with
-    | .error .unable => do let r ← inferKw reg t phase cs; .ok ((n, none) :: r)
+    match infer chk reg t phase c with
+    | .error .unable => do let r ← inferKw chk reg t phase cs; .ok ((n, none) :: r)
     | .error e => .error e
-    | .ok k => do let r ← inferKw reg t phase cs; .ok ((n, some k) :: r)
+    | .ok k => do let r ← inferKw chk reg t phase cs; .ok ((n, some k) :: r)
 end
 
 /-- `map_generic_call(..., single_return_only=False)` -/
-def inferCall (reg : Registry) (t : Table) (phase : Name) (f : Name)
+def inferCall (chk : Bool) (reg : Registry) (t : Table) (phase : Name) (f : Name)
     (args : List Expr) (kw : List (Name × Expr)) : Except KErr (List Kind) :=
   match reg f with
   | none => .error .functionNotFound
   | some fn => do
-    let ak ← inferArgs reg t phase args
-    let kk ← inferKw reg t phase kw
-    match fn ak kk with
+    let ak ← inferArgs chk reg t phase args
+    let kk ← inferKw chk reg t phase kw
+    match fn chk ak kk with
     | .error _ => .error .unable
     | .ok ks => .ok ks
 
@@ -243,12 +255,12 @@ def processStmt (reg : Registry) (t : Table) (phase : Name) : KStmt → Outcome
   | .assign lhs hasSub _ flat loops =>
     let t := setLoops t phase loops
     bif hasSub then .skipped t
-    else match infer reg t phase flat with
+    else match infer false reg t phase flat with
       | .error .unable => .retry t
       | .error e => .fail e
       | .ok k => .done (t.set phase lhs k)
   | .callAssign lhs f args kw =>
-    match inferCall reg t phase f args kw with
+    match inferCall false reg t phase f args kw with
     | .error .unable => .retry t
     | .error e => .fail e
     | .ok ks => .done (setZip t phase lhs ks)
@@ -281,15 +293,15 @@ def outer (reg : Registry) (prog : List (Name × KStmt)) : Nat → Table → Exc
     | .error e => .error e
     | .ok t' => bif t'.changed then outer reg prog fuel t' else .ok t'
 
-/-- final consistency pass (expressions as written, results discarded) -/
+/-- final consistency pass in check mode (expressions as written, results discarded) -/
 def finalCheck (reg : Registry) (t : Table) : List (Name × KStmt) → Except KErr Unit
   | [] => .ok ()
   | (ph, .assign _ _ rhs _ _) :: r =>
-    match infer reg t ph rhs with
+    match infer true reg t ph rhs with
     | .error e => .error e
     | .ok _ => finalCheck reg t r
   | (ph, .callAssign lhs f args kw) :: r =>
-    match inferCall reg t ph f args kw with
+    match inferCall true reg t ph f args kw with
     | .error e => .error e
     | .ok ks =>
       -- `len(func.result_names) != len(stmt.assignees)`; in the modelled registry a function
